@@ -92,6 +92,13 @@ def build(vacuity=False, only=None, interface=False):
         key = f"writer.{f}"
         items.append({"key": key, "file": PK + "writer.rs", "kind": "impl_fn", "trait": "AsyncWritePacket", "name": f,
                       "rules": FN_RULES, "anchors": vxlib.anchors_for(fnc[key], vacuity)})
+    # --- every module-level const of the packet files (new named limits etc.)
+    pconsts = {}
+    for pf in PACKET_FILES:
+        ci, where = vxlib.const_items(PK + pf + ".rs")
+        items += ci
+        for modpath, key in where:
+            pconsts.setdefault((pf,) + modpath, []).append(key)
     # --- packets
     packets = discover_packets()
     empty = vxlib.FnContract("_", {})
@@ -179,10 +186,14 @@ def build(vacuity=False, only=None, interface=False):
         files.setdefault(path[0], []).append((path[1:], tys))
     for pf, mods in files.items():
         u.raw(f"pub mod {pf} {{\n    use super::*;\n")
+        for key in pconsts.get((pf,), []):
+            u.add_item_text(ex[key])
         for modpath, tys in mods:
             for m in modpath:
                 u.raw(f"    pub mod {m} {{\n    use super::*;\n")
             u.modules.append("::".join([pf] + list(modpath)))
+            for key in pconsts.get((pf,) + tuple(modpath), []):
+                u.add_item_text(ex[key])
             for ty in tys:
                 pk = ".".join([pf] + list(modpath) + [ty])
                 st = ex[f"{pk}.struct"]
